@@ -207,6 +207,13 @@ func replayConnCaseMode(kr *keyring, c *connCase, parked, byref, latewrite bool)
 		return "first hello delivered to the backend is not the expected one"
 	}
 	empty := aEnc{To: "empty", Id: "e0"}
+	innerRec2 := innerRec
+	if byref {
+		// the second ClientHelloOuter of a real client differs from the first (key_share, cookie ...): what the retried inner
+		// hello takes by reference is taken from the SECOND outer hello
+		stdOuter = setExt(stdOuter, "sg", "g2")
+		innerRec2 = expectedInnerRecord(kr, &aInner{Sid: "s1", Exts: setExt(stdInnerFull, "sg", "g2")}, eo)
+	}
 	mkCH2 := func(sym string) []byte {
 		var h *aHello
 		switch sym {
@@ -329,7 +336,7 @@ func replayConnCaseMode(kr *keyring, c *connCase, parked, byref, latewrite bool)
 					return fmt.Sprintf("step %d read %s: spec says forwarded verbatim; code returned %d bytes, err=%v, equal=%v", i+1, sym, n, err, bytes.Equal(buf[:n], rec))
 				}
 			case "inner":
-				if err != nil || !sameRecord(innerRec, buf[:n]) {
+				if err != nil || !sameRecord(innerRec2, buf[:n]) {
 					return fmt.Sprintf("step %d read %s: spec says replaced by the reconstructed inner hello; code returned %d bytes, err=%v", i+1, sym, n, err)
 				}
 			case "abort":
@@ -442,6 +449,11 @@ func replayConnCaseMode(kr *keyring, c *connCase, parked, byref, latewrite bool)
 	scribbledALPN(conn) // a caller that edits the list it was handed must not change what a retried hello is compared with
 	if conn.ECHAccepted() != (c.First == "acc") {
 		return "ECHAccepted changed during the history"
+	}
+	if c.First == "acc" {
+		if got := conn.ALPNProtos(); fmt.Sprint(got) != fmt.Sprint(alpnList["ai"]) || conn.ServerName() != sniName["priv"] {
+			return fmt.Sprintf("after the history the Conn reports ServerName %q ALPN %v; the inner hello carries %q %v (in the client's order)", conn.ServerName(), got, sniName["priv"], alpnList["ai"])
+		}
 	}
 	return ""
 }
